@@ -299,7 +299,17 @@ func (g *gen) piecewise(r replySpec) replySpec {
 
 func (g *gen) authReply() replySpec {
 	grant := []rscp.Message{{Tag: rscp.RSCP_AUTHENTICATION, DataType: rscp.UChar8, Value: uint8(10)}}
-	switch g.pick(12) {
+	switch g.pick(14) {
+	case 12, 13:
+		// any tag of the authentication family with any data type and value
+		tg := []rscp.Tag{rscp.RSCP_GENERAL_ERROR, rscp.RSCP_AUTHENTICATION, rscp.RSCP_USER_LEVEL, rscp.RSCP_REQ_AUTHENTICATION, 0x00800099}[g.pick(5)]
+		dt := definedTypes[g.pick(len(definedTypes))]
+		vs := authValues(dt)
+		var v interface{}
+		if len(vs) > 0 {
+			v = vs[g.pick(len(vs))]
+		}
+		return frameReply([]rscp.Message{{Tag: tg, DataType: dt, Value: v}})
 	case 0:
 		return frameReply([]rscp.Message{{Tag: rscp.RSCP_AUTHENTICATION, DataType: rscp.UChar8, Value: uint8(0)}})
 	case 1:
@@ -314,7 +324,9 @@ func (g *gen) authReply() replySpec {
 
 func (g *gen) failReply(ms []rscp.Message) replySpec {
 	items := encItems(ms)
-	switch g.pick(14) {
+	switch g.pick(15) {
+	case 14:
+		return replySpec{behaviour{kind: "wrongLength"}, "P dataLimit 0"}
 	case 13:
 		return replySpec{behaviour{kind: "badCrcThenFrame", items: items}, "P invalidCrc 1 " + msgsString(ms)}
 	case 10:
@@ -565,6 +577,9 @@ func (g *gen) edgeCredentials(i int, user, pw, key string) (string, string, stri
 		user, pw, key = user+e, pw+e, key+e
 	case 5:
 		pw = e
+		if g.chance(0.5) {
+			key = e // a key that consists of nothing but this
+		}
 	default:
 		key = e + key
 	}
